@@ -93,7 +93,8 @@ META = {
                    'model_rebuilt', 'bounds_changed_on_component',
                    'bounds_list_changed_in_place',
                    'component_removed_and_rebuilt', 'removed_parameter_named',
-                   'plugin_prior_compiled'],
+                   'plugin_prior_compiled',
+                   'prior_limits_changed_on_live_object'],
         'real': ['taurex.optimizer.Optimizer (all mutators and views)',
                  'ParameterParser.read / generate_fitting_parameters / '
                  'setup_optimizer, create_prior (prior text form)',
@@ -197,7 +198,8 @@ META = {
         'probes': ['valid_right_after_invalid', 'repeated_point',
                    'mixed_space_prior', 'obs_param_fitted', 'exact_fit_run',
                    'refit_session', 'observation_replaced', 'model_replaced',
-                   'factor_boundary_between_fits', 'cube_face_exactly'],
+                   'factor_boundary_between_fits', 'cube_face_exactly',
+                   'invalid_by_definition_only'],
         'real': ['NestleOptimizer/MultiNestOptimizer/PolyChordOptimizer '
                  'compute_fit closures', 'Optimizer.compile_params / '
                  'update_model / chisq_trans', 'taurex.core.priors',
@@ -306,7 +308,10 @@ META = {
                    'cleared_while_populated', 'replaced_after_served',
                    'removed_after_served', 'mode_discriminating_probe',
                    'missing_molecule_requested', 'added_object_other_mode',
-                   'load_failed_beside_corrupt_file'],
+                   'load_failed_beside_corrupt_file',
+                   'request_on_node_subrange', 'reader_constructed_directly',
+                   'ktable_path_changed_without_clear',
+                   'missing_ktable_requested', 'cia_object_handed_over'],
         'real': ['PickleOpacity, HDF5Opacity, ExoTransmitOpacity, '
                  'PickleKTable, HDF5KTable, PickleCIA, HitranCIA',
                  'OpacityCache, KTableCache, CIACache, GlobalCache',
@@ -317,6 +322,10 @@ META = {
                  'the readers', 'glob.glob -> seeded permutation of the '
                  'listing', 'ClassFactory class sets -> lists in seeded order'],
         'assumptions': COMMON_ASSUMPTIONS + [
+            'the two k-table directories hold different tables of a molecule '
+            '(what is served tells where it came from); after the k-table '
+            'path is changed without clearing, loaded objects stay and new '
+            'requests come from the newly configured directory',
             'duplicate containers of one molecule in one directory hold the '
             'same table (which wins is discovery order, part of the schedule)',
             'probes lie strictly inside a (T, log P) cell; tolerance 1e-9 '
@@ -360,7 +369,8 @@ META = {
                    'parameter_changed_before_write',
                    'written_after_later_evaluations',
                    'another_file_loaded_first',
-                   'loaded_with_replacements_first'],
+                   'loaded_with_replacements_first',
+                   'lightcurve_result_stored'],
         'real': ['HDF5Output / HDF5OutputGroup', 'Output.store_dictionary, '
                  'recursively_save_dict_contents_to_output, store_thing',
                  'Binner/FluxBinner/SimpleBinner/NativeBinner '
